@@ -26,7 +26,7 @@ build() {  # build <targets...>
 if [ "$tier" = thorough ]; then DL=${VERIF_DEADLINE:-1500}; else DL=${VERIF_DEADLINE:-170}; fi
 case "$id" in
   C01|C02|C07|C08|C09|C10) build "$B/search"; exec "$B/search" --prop "$id" --tier "$tier" --deadline "$DL" ;;
-  C03|C04) build "$B/segmentation"; exec "$B/segmentation" --prop "$id" --tier "$tier" --deadline "$DL" ;;
+  C03|C04) build "$B/segmentation" "$B/ompbind_real"; exec "$B/segmentation" --prop "$id" --tier "$tier" --deadline "$DL" --ompbind-bin "$(cd "$B" && pwd)/ompbind_real" ;;
   C05|C06|C15) build "$B/dynamic"; exec "$B/dynamic" --prop "$id" --tier "$tier" --deadline "$DL" ;;
   C11|C12) build "$B/mapped"; exec "$B/mapped" --prop "$id" --tier "$tier" --deadline "$DL" ;;
   C13|C14) build "$B/multidim"; exec "$B/multidim" --prop "$id" --tier "$tier" --deadline "$DL" ;;
